@@ -8,6 +8,7 @@ import PS.Spec.Twins
 import PS.Model.Solver
 import PS.Model.Solution
 import PS.Model.Export
+import PS.Spec.Fragment
 open PS
 
 structure Session where
@@ -58,6 +59,9 @@ def handle (ss : Session) (line : String) : Session × List String :=
   | some sx =>
     match sx with
     | .list [.atom "reset"] => ({}, ["ok"])
+    | .list [.atom "fragment"] =>
+        -- is the state inside the fragment of the exactness theorems (`fragmentB_sound`, PS/Theorems/Exact.lean)?
+        (ss, ["(n 1)", if ss.st.fragmentB then "true" else "false"])
     | .list (.atom "initialize" :: cfgl) =>
         let cfg := parseConfig cfgl
         let fs := initializeO cfg ss.st
